@@ -172,3 +172,114 @@ theorem allocAt_pinv (s s' : Net) (n a : Nat) (hs : PInv s) (h : allocAt s n = .
       rw [inNet_congr _ _ _ (hnet m).1 (hnet m).2.1]; exact b3
 
 end I2N.Net
+
+namespace I2N.Net
+
+/-- after "detach" no registered netconfig lists the client interface any more -/
+theorem detach_unlisted (s t : Net) (c on : Nat) (hs : PInv s) (hon : (s.iface c).nc = some on)
+    (hifs : ∀ m, (t.nc m).ifs = if m = on then adel (s.iface c).ip (s.nc m).ifs else (s.nc m).ifs) :
+    ∀ m, Registered s m → ∀ k, (k, c) ∉ (t.nc m).ifs := by
+  intro m hm k hj
+  rw [hifs m] at hj
+  have hold : (k, c) ∈ (s.nc m).ifs ∧ (m = on → k ≠ (s.iface c).ip) := by
+    split at hj
+    · have := (mem_adel _ _ _).1 hj
+      exact ⟨this.2, fun _ => this.1⟩
+    · rename_i hne; exact ⟨hj, fun h => absurd h hne⟩
+  obtain ⟨_, _, a3, a4⟩ := hs.member m hm k c hold.1
+  rw [hon] at a3
+  simp only [Option.some.injEq] at a3
+  exact hold.2 a3.symm a4.symm
+
+/-- state after "detach from the current network" and taking address `a` (netconfig `tn` becomes `k'`) -/
+def detachState (s : Net) (c on tn a : Nat) (k' : Netconfig) : Net :=
+  ((s.setNc on (fun k => { k with ifs := adel (s.iface c).ip k.ifs })).setNc tn (fun _ => k')).setIface c
+    (fun f => { f with ip := a })
+
+/-- proxy variant: `del netconfig.interfaces[interface.ip]; ref_interface.ip = proxy_interface.ip` -/
+def proxyMid (s3 : Net) (r pi tn a : Nat) : Net :=
+  (s3.setNc tn (fun k => { k with ifs := adel a k.ifs })).setIface r
+    (fun f => { f with ip := ((s3.setNc tn (fun k => { k with ifs := adel a k.ifs })).iface pi).ip })
+
+/-- proxy variant: the client gets an address of the proxy interface's netconfig and its reference -/
+def proxyFinal (s5 : Net) (c pn a2 : Nat) (k2 : Netconfig) : Net :=
+  (s5.setNc pn (fun _ => k2)).setIface c (fun f => { f with ip := a2, nc := some pn })
+
+/-- the steps of `reattach_interface` with an effective proxy nic -/
+theorem reattach_proxy_cases (s s' : Net) (c r pi : Nat) (hpi : pi ≠ r) (h : reattach s c r (some pi) = .ok s') :
+    ∃ tn on a k' pn a2 k2, (s.iface r).nc = some tn ∧ (s.iface c).nc = some on ∧
+      allocate ((s.setNc on (fun k => { k with ifs := adel (s.iface c).ip k.ifs })).nc tn) = .ok (a, k') ∧
+      allocate ((proxyMid (attachState (detachState s c on tn a k') tn c) r pi tn a).nc pn) = .ok (a2, k2) ∧
+      s' = proxyFinal (proxyMid (attachState (detachState s c on tn a k') tn c) r pi tn a) c pn a2 k2 := by
+  unfold reattach at h
+  simp only [Option.some.injEq, hpi, if_false] at h
+  split at h
+  · rename_i tn on htn hon
+    split at h
+    · cases h
+    · split at h
+      · cases h
+      · rename_i a k' hal
+        split at h
+        · cases h
+        · rename_i s3 hadd
+          obtain ⟨rfl, _⟩ := addInterface_ok _ _ _ _ hadd
+          split at h
+          · cases h
+          · rename_i pn hpn
+            split at h
+            · cases h
+            · rename_i a2 k2 hal2
+              simp only [Except.ok.injEq] at h
+              exact ⟨tn, on, a, k', pn, a2, k2, htn, hon, hal, hal2, h.symm⟩
+  · cases h
+
+theorem detachState_ifs (s : Net) (c on tn a : Nat) (k' : Netconfig)
+    (hk : k'.ifs = ((s.setNc on (fun k => { k with ifs := adel (s.iface c).ip k.ifs })).nc tn).ifs) (m : Nat) :
+    ((detachState s c on tn a k').nc m).ifs =
+      if m = on then adel (s.iface c).ip (s.nc m).ifs else (s.nc m).ifs := by
+  have hs1nc : ∀ m, (s.setNc on (fun k => { k with ifs := adel (s.iface c).ip k.ifs })).nc m =
+      if m = on then { s.nc m with ifs := adel (s.iface c).ip (s.nc m).ifs } else s.nc m := fun m => rfl
+  show ((if m = tn then k' else (s.setNc on _).nc m)).ifs = _
+  split
+  · rename_i hm; subst hm; rw [hk, hs1nc]; split <;> rfl
+  · rw [hs1nc]; split <;> rfl
+
+/-- F8: after `reattach_interface(…, proxy_nic=…)` (proxy nic different from the server nic) the client
+    interface is listed by no netconfig although its `netconfig` reference points to one: the registries are
+    inconsistent, whatever the network looked like before. -/
+theorem reattach_proxy_not_pinv (s s' : Net) (c r pi : Nat) (hs : PInv s) (hc : c < s.nIf) (hpi : pi ≠ r)
+    (h : reattach s c r (some pi) = .ok s') : ¬ PInv s' := by
+  intro hs'
+  obtain ⟨tn, on, a, k', pn, a2, k2, htn, hon, hal, hal2, rfl⟩ := reattach_proxy_cases s s' c r pi hpi h
+  obtain ⟨_, _, _, _, _, _, _, hk3, _, _⟩ := allocate_inv _ _ _ hal
+  obtain ⟨_, _, _, _, _, _, _, hj3, _, _⟩ := allocate_inv _ _ _ hal2
+  -- the client is attached to `pn` …
+  have hnc : ((proxyFinal (proxyMid (attachState (detachState s c on tn a k') tn c) r pi tn a) c pn a2 k2).iface c).nc
+      = some pn := by simp [proxyFinal, Net.setIface]
+  obtain ⟨⟨kreg, hreg⟩, hlisted, _⟩ := hs'.placed c pn hc (Nat.ne_of_lt hc) hnc
+  have hregs : Registered s pn := ⟨kreg, hreg⟩
+  -- … but `pn` does not list it
+  have hun := detach_unlisted s _ c on hs hon (detachState_ifs s c on tn a k' hk3) pn hregs
+  have e2 : ((proxyFinal (proxyMid (attachState (detachState s c on tn a k') tn c) r pi tn a) c pn a2 k2).nc pn) = k2 := by
+    simp [proxyFinal, Net.setIface, Net.setNc]
+  rw [e2, hj3] at hlisted
+  have e3 : (proxyMid (attachState (detachState s c on tn a k') tn c) r pi tn a).nc pn =
+      if pn = tn then { (attachState (detachState s c on tn a k') tn c).nc pn with
+        ifs := adel a ((attachState (detachState s c on tn a k') tn c).nc pn).ifs }
+      else (attachState (detachState s c on tn a k') tn c).nc pn := rfl
+  rw [e3, attachState_nc] at hlisted
+  have hip : ((detachState s c on tn a k').iface c).ip = a := by simp [detachState, Net.setIface]
+  by_cases hpt : pn = tn
+  · simp only [hpt, if_true] at hlisted
+    have h1 := (mem_adel _ _ _).1 hlisted
+    rcases (mem_aset _ _ _ _).1 h1.2 with heq | ⟨_, hm⟩
+    · apply h1.1
+      have := congrArg Prod.fst heq
+      simp only at this
+      rw [this, hip]
+    · rw [hpt] at hun; exact hun _ hm
+  · simp only [hpt, if_false] at hlisted
+    exact hun _ hlisted
+
+end I2N.Net
